@@ -112,9 +112,67 @@ class Module:
                     if not isinstance(t, ast.Name):
                         raise Unclassified(f"{self.file}: logger bound to {src(t)}")
                     self.loggers.add(t.id)
+        self.split_conditional_logs()
+        self.parent = {}
+        for n in ast.walk(self.tree):
+            for c in ast.iter_child_nodes(n):
+                self.parent[c] = n
         self.sites = {}  # id(call) -> dict
         self.order = []
+        self.secret_classes = secret_repr_classes(self.tree)
+        self.secret_args = []  # (function, expression): a logging argument that is an object of such a class
         self.check_logger_uses()
+
+    def split_conditional_logs(self):
+        """equivalent statement shapes normalised to the one the reference inventory uses (a logging call per branch):
+             logger.L(.., A if T else B, ..)                       ==>  if T: logger.L(.., A, ..) else: logger.L(.., B, ..)
+             v = A if T else B ; logger.L(.., v, ..)  (v read once)  ==>  the same
+        Side conditions: the call is a whole statement, the other arguments are names / constants (evaluating them after
+        T instead of before is unobservable), v is a plain local read nowhere else in the function.  Same order of
+        effects: T, then exactly one of A / B, then the record."""
+
+        def pure(a):
+            return isinstance(a, (ast.Name, ast.Constant))
+
+        def split(call, idx, ifexp):
+            def mk(val):
+                c = ast.Call(func=call.func, args=list(call.args), keywords=call.keywords)
+                c.args[idx] = val
+                return ast.copy_location(ast.Expr(value=ast.copy_location(c, call)), call)
+
+            return ast.copy_location(ast.If(test=ifexp.test, body=[mk(ifexp.body)], orelse=[mk(ifexp.orelse)]), call)
+
+        def log_stmt(st):
+            return st.value if isinstance(st, ast.Expr) and self.is_log_call(st.value) and not st.value.keywords else None
+
+        for fn in [n for n in ast.walk(self.tree) if isinstance(n, (ast.FunctionDef, ast.AsyncFunctionDef))]:
+            for holder in ast.walk(fn):
+                for field in ("body", "orelse", "finalbody"):
+                    stmts = getattr(holder, field, None)
+                    if not isinstance(stmts, list):
+                        continue
+                    i = 0
+                    while i < len(stmts):
+                        call = log_stmt(stmts[i]) if isinstance(stmts[i], ast.stmt) else None
+                        if call is not None:
+                            conds = [k for k, a in enumerate(call.args) if isinstance(a, ast.IfExp)]
+                            if len(conds) == 1 and all(pure(a) for k, a in enumerate(call.args) if k != conds[0]):
+                                stmts[i] = split(call, conds[0], call.args[conds[0]])
+                            elif i > 0 and not conds and all(pure(a) for a in call.args):
+                                prev = stmts[i - 1]
+                                if (
+                                    isinstance(prev, ast.Assign) and len(prev.targets) == 1 and isinstance(prev.targets[0], ast.Name)
+                                    and isinstance(prev.value, ast.IfExp)
+                                ):
+                                    v = prev.targets[0].id
+                                    uses = [k for k, a in enumerate(call.args) if isinstance(a, ast.Name) and a.id == v]
+                                    loads = [n for n in ast.walk(fn) if isinstance(n, ast.Name) and n.id == v and isinstance(n.ctx, ast.Load)]
+                                    stores = [n for n in ast.walk(fn) if isinstance(n, ast.Name) and n.id == v and isinstance(n.ctx, ast.Store)]
+                                    if len(uses) == 1 and len(loads) == 1 and len(stores) == 1:
+                                        stmts[i - 1 : i + 1] = [split(call, uses[0], prev.value)]
+                                        i -= 1
+                        i += 1
+        ast.fix_missing_locations(self.tree)
 
     def is_getlogger(self, v):
         return (
@@ -189,10 +247,12 @@ class Module:
         if fn.args.kwarg:
             names.append(fn.args.kwarg.arg)
         env = {n: unknown(f"parameter {n} of {qual}") for n in names}
-        if self.file == "server.py" and qual == "Server.write_line" and "line" in env:
-            env["line"] = self.write_line_seed()
-        if self.file == "client.py" and qual.endswith(".command") and "command" in env and "censor_after" in env:
-            env["command"] = CCMD
+        pos = [a.arg for a in fn.args.posonlyargs + fn.args.args]
+        # parameters are identified by position / by the keyword callers use, not by the spelling of a positional name
+        if self.file == "server.py" and qual == "Server.write_line" and len(pos) == 3:  # write_line(self, stream, <line>)
+            env[pos[2]] = self.write_line_seed()
+        if self.file == "client.py" and qual.endswith(".command") and len(pos) >= 2 and "censor_after" in env:  # command(self, <command>, ..., censor_after=)
+            env[pos[1]] = CCMD
             env["censor_after"] = CENSOR_PARAM
         return env
 
@@ -218,9 +278,29 @@ class Module:
             return unknown("response_writer referenced outside dispatcher")
         return REPLY
 
+    def secret_objects(self, fn):
+        """expression text -> class, for every Name / attribute chain E of fn that is read as `E.<field>` with <field> a
+        field of a class whose __repr__/__str__ prints the password (identified by use, not by spelling)"""
+        out = {}
+        for n in ast.walk(fn):
+            if isinstance(n, ast.Attribute) and isinstance(n.ctx, ast.Load) and isinstance(n.value, (ast.Name, ast.Attribute)):
+                if isinstance(n.value, ast.Name) and n.value.id in ("self", "cls"):
+                    continue
+                for cname, fields in self.secret_classes.items():
+                    if n.attr in fields:
+                        out[src(n.value)] = cname
+        return out
+
     def walk_function(self, fn, qual, outer_env, cls):
         env = dict(outer_env)
         env.update(self.param_seeds(fn, qual))
+        self.secret_objs = getattr(self, "secret_objs", []) + [self.secret_objects(fn)]
+        try:
+            self.walk_function_body(fn, qual, env)
+        finally:
+            self.secret_objs = self.secret_objs[:-1]
+
+    def walk_function_body(self, fn, qual, env):
         self.fn_stack = getattr(self, "fn_stack", []) + [(fn, qual)]
         try:
             self.walk_block(fn.body, env)
@@ -358,6 +438,12 @@ class Module:
         if not args:
             raise Unclassified(f"{self.file}:{call.lineno}: logging call without a message")
         srcs = [self.ev(a, env) for a in args]
+        for a in args:
+            for m in ast.walk(a):
+                if isinstance(m, (ast.Name, ast.Attribute)) and src(m) in self.secret_objs[-1]:
+                    par = self.parent.get(m)
+                    if not (isinstance(par, ast.Attribute) and par.value is m):  # the object itself, not one of its fields
+                        self.secret_args.append((f"{self.file}:{qual}", self.secret_objs[-1][src(m)]))
         for k in call.keywords:
             if k.arg == "exc_info":
                 if not (isinstance(k.value, ast.Constant) and k.value.value in (False, None)):
@@ -386,6 +472,9 @@ class Module:
     def ev(self, e, env):
         if isinstance(e, ast.Constant):
             return CONST
+        if isinstance(e, (ast.Name, ast.Attribute)) and getattr(self, "secret_objs", None) and src(e) in self.secret_objs[-1]:
+            # an object whose repr()/str() embeds the password it was configured with: a tainted source
+            return unknown(f"object of class {self.secret_objs[-1][src(e)]} (its __repr__/__str__ prints the password): {src(e)}")
         if isinstance(e, ast.Name):
             return env.get(e.id, unknown(e.id))
         if isinstance(e, ast.JoinedStr):
@@ -638,6 +727,19 @@ def server_pass_facts(mod):
                     handler_name = v.attr
     if handler_name is None or handler_name not in server:
         raise Unclassified("no handler bound to verb 'pass' in commands_mapping")
+    # every key of the mapping that is bound to that same handler (an alias entry "xpass": self.pass_ would be one),
+    # and whether the mapping is a literal {"<verb>": self.<method>, ...} that nothing else in __init__ touches
+    pass_verbs, mapping_literal = [], True
+    n_mentions = sum(1 for n in ast.walk(server["__init__"]) if isinstance(n, ast.Attribute) and n.attr == "commands_mapping")
+    for n in ast.walk(server["__init__"]):
+        if isinstance(n, ast.Assign) and src(n.targets[0]) == "self.commands_mapping" and isinstance(n.value, ast.Dict):
+            for k, v in zip(n.value.keys, n.value.values):
+                if not (isinstance(k, ast.Constant) and isinstance(k.value, str) and isinstance(v, ast.Attribute) and src(v.value) == "self"):
+                    mapping_literal = False
+                elif v.attr == handler_name:
+                    pass_verbs.append(k.value)
+    if n_mentions != 1:
+        mapping_literal = False
     h = server[handler_name]
     params = [a.arg for a in h.args.args]
     if len(params) != 3:
@@ -691,17 +793,23 @@ def server_pass_facts(mod):
         wparams = [a.arg for a in w.args.args]
         if len(wparams) < 3:
             raise Unclassified("ConnectionConditions wrapper signature")
-        deco_sinks += rest_sinks(w, wparams[2], parent)
+        wrapped = [a.arg for a in call.args.args][1:2]  # __call__(self, <wrapped function>)
+        deco_sinks += ["@wrapped" if [x] == wrapped else x for x in rest_sinks(w, wparams[2], parent)]
         if any(mod.is_log_call(n) for n in ast.walk(w)):
             deco_sinks.append("logging-call-in-wrapper")
         # info = f"bad sequence of commands ({message})" when fail_info is None
+        resp = [n for n in ast.walk(w) if isinstance(n, ast.Call) and src(n.func) == f"{wparams[1]}.response"]
+        if len(resp) != 1 or len(resp[0].args) != 2 or src(resp[0].args[0]) != "self.fail_code" or not isinstance(resp[0].args[1], ast.Name):
+            raise Unclassified("ConnectionConditions wrapper: reply shape")
+        info_var = resp[0].args[1].id  # the local handed to connection.response as the reply text
+        message_vars = {  # the second loop variable of `for <future>, <message> in <dict>.items()`
+            n.target.elts[1].id for n in ast.walk(w)
+            if isinstance(n, ast.For) and isinstance(n.target, ast.Tuple) and len(n.target.elts) == 2 and isinstance(n.target.elts[1], ast.Name)
+        }
         tmpl = None
         for n in ast.walk(w):
-            if isinstance(n, ast.Assign) and isinstance(n.targets[0], ast.Name) and n.targets[0].id == "info" and isinstance(n.value, ast.JoinedStr):
+            if isinstance(n, ast.Assign) and isinstance(n.targets[0], ast.Name) and n.targets[0].id == info_var and isinstance(n.value, ast.JoinedStr):
                 tmpl = n.value
-        resp = [n for n in ast.walk(w) if isinstance(n, ast.Call) and src(n.func) == f"{wparams[1]}.response"]
-        if len(resp) != 1 or [src(a) for a in resp[0].args] != ["self.fail_code", "info"]:
-            raise Unclassified("ConnectionConditions wrapper: reply shape")
         for a in d.args:
             if not (isinstance(a, ast.Attribute) and src(a.value) == "ConnectionConditions" and a.attr in consts):
                 raise Unclassified(f"ConnectionConditions argument {src(a)}")
@@ -715,7 +823,7 @@ def server_pass_facts(mod):
                 for p in tmpl.values:
                     if isinstance(p, ast.Constant):
                         info += p.value
-                    elif isinstance(p, ast.FormattedValue) and isinstance(p.value, ast.Name) and p.value.id == "message" and p.conversion == -1 and p.format_spec is None:
+                    elif isinstance(p, ast.FormattedValue) and isinstance(p.value, ast.Name) and p.value.id in message_vars and p.conversion == -1 and p.format_spec is None:
                         info += message
                     else:
                         raise Unclassified(f"ConnectionConditions info template part {src(p)}")
@@ -724,7 +832,7 @@ def server_pass_facts(mod):
     disp = server["dispatcher"]
     unknown_names = None
     for n in ast.walk(disp):
-        if isinstance(n, ast.Call) and src(n.func) == "connection.response" and n.args and isinstance(n.args[0], ast.Constant) and n.args[0].value == "502":
+        if isinstance(n, ast.Call) and isinstance(n.func, ast.Attribute) and n.func.attr == "response" and n.args and isinstance(n.args[0], ast.Constant) and n.args[0].value == "502":
             a = n.args[1]
             if isinstance(a, ast.Name):
                 vals = [m.value for m in ast.walk(disp) if isinstance(m, ast.Assign) and isinstance(m.targets[0], ast.Name) and m.targets[0].id == a.id]
@@ -735,11 +843,47 @@ def server_pass_facts(mod):
     if unknown_names is None:
         raise Unclassified("dispatcher: 502 reply not found")
     # `cmd, rest = result` is the only binding of those names in the dispatcher
-    unpack = [n for n in ast.walk(disp) if isinstance(n, ast.Assign) and isinstance(n.targets[0], ast.Tuple) and src(n.value) == "result"]
-    if len(unpack) != 1 or len(unpack[0].targets[0].elts) != 2:
-        raise Unclassified("dispatcher: `cmd, rest = result` not found")
+    result_vars = task_result_vars(disp)
+    unpack = [n for n in ast.walk(disp) if isinstance(n, ast.Assign) and isinstance(n.targets[0], ast.Tuple) and isinstance(n.value, ast.Name) and n.value.id in result_vars]
+    if len(unpack) != 1 or len(unpack[0].targets[0].elts) != 2 or not all(isinstance(e, ast.Name) for e in unpack[0].targets[0].elts):
+        raise Unclassified("dispatcher: `<verb>, <rest> = <local bound to task.result()>` not found")
     verb_var, rest_var = [e.id for e in unpack[0].targets[0].elts]
-    disp_rest_sinks = rest_sinks(disp, rest_var, parent)
+    roles = {verb_var: "@verb", rest_var: "@rest"}
+    # the handler of a line is looked up by the verb parse_command returned and by nothing else: the dispatcher reads
+    # `self.commands_mapping` exactly once, as `<handler> = self.commands_mapping.get(<verb>)`, and neither the verb,
+    # the argument nor the handler local is bound anywhere else in the dispatcher.  The locals are identified by what
+    # they are bound to (their ROLE), never by spelling.
+    reads = [n for n in ast.walk(disp) if isinstance(n, ast.Attribute) and n.attr == "commands_mapping"]
+    lookup_ok, lookup_why, handler_var = True, "", None
+    if len(reads) != 1:
+        lookup_ok, lookup_why = False, f"the dispatcher reads commands_mapping {len(reads)} times"
+    else:
+        g = parent.get(reads[0])
+        c = parent.get(g)
+        a = parent.get(c)
+        if not (
+            src(reads[0].value) == "self" and isinstance(g, ast.Attribute) and g.attr == "get" and isinstance(c, ast.Call) and c.func is g
+            and len(c.args) == 1 and not c.keywords and isinstance(c.args[0], ast.Name) and c.args[0].id == verb_var
+            and isinstance(a, ast.Assign) and a.value is c and len(a.targets) == 1 and isinstance(a.targets[0], ast.Name)
+        ):
+            lookup_ok, lookup_why = False, f"commands_mapping is used as {src(a or c or g)[:80]}"
+        else:
+            handler_var = a.targets[0].id
+            roles[handler_var] = "@handler"
+    stores = {}
+    for n in ast.walk(disp):
+        if isinstance(n, ast.Name) and isinstance(n.ctx, (ast.Store, ast.Del)):
+            stores[n.id] = stores.get(n.id, 0) + 1
+        elif isinstance(n, ast.arg):
+            stores[n.arg] = stores.get(n.arg, 0) + 1
+    for v in (verb_var, rest_var, handler_var):
+        if lookup_ok and v is not None and stores.get(v, 0) != 1:
+            lookup_ok, lookup_why = False, f"{roles[v]} local is bound {stores.get(v, 0)} times in the dispatcher"
+    # other readers of the mapping (outside __init__ and the dispatcher) would be a second way to reach a handler
+    for name, m in server.items():
+        if name not in ("__init__", "dispatcher") and any(isinstance(n, ast.Attribute) and n.attr == "commands_mapping" for n in ast.walk(m)):
+            lookup_ok, lookup_why = False, f"commands_mapping is also used in Server.{name}"
+    disp_rest_sinks = [roles.get(x, x) for x in rest_sinks(disp, rest_var, parent)]
     pc_calls_default = True
     n_calls = 0
     for n in ast.walk(tree):
@@ -755,24 +899,123 @@ def server_pass_facts(mod):
     returns_lower = len(rets) == 1 and isinstance(rets[0].value, ast.Tuple) and len(rets[0].value.elts) == 2 and src(rets[0].value.elts[0]).endswith(".lower()")
     return {
         "handler": handler_name,
+        "pass_verbs": pass_verbs,
+        "mapping_literal": mapping_literal,
         "replies": replies,
         "literal": lit,
         "sinks": sinks,
         "guard_replies": guard_replies,
         "deco_sinks": deco_sinks,
-        "unknown_names": unknown_names,
+        "unknown_names": sorted(set(roles.get(x, x) for x in unknown_names)),
         "verb_var": verb_var,
         "rest_var": rest_var,
+        "lookup_ok": lookup_ok,
+        "lookup_why": lookup_why,
         "disp_rest_sinks": disp_rest_sinks,
         "pc_calls_default": pc_calls_default,
         "returns_lower": returns_lower,
     }
 
 
+def secret_repr_classes(tree):
+    """class name -> fields, for the classes of a module whose __repr__ / __str__ / __format__ reads a field that holds the
+    password: a field named by / assigned from __init__'s `password` parameter"""
+    out = {}
+    for cls in tree.body:
+        if not isinstance(cls, ast.ClassDef):
+            continue
+        m = methods_of(cls)
+        init = m.get("__init__")
+        if init is None or "password" not in [a.arg for a in init.args.args + init.args.kwonlyargs]:
+            continue
+        fields, pw_fields = set(), set()
+        for n in ast.walk(init):
+            if isinstance(n, ast.Assign):
+                for t in n.targets:
+                    if isinstance(t, ast.Attribute) and isinstance(t.value, ast.Name) and t.value.id == "self":
+                        fields.add(t.attr)
+                        if "password" in names_in(n.value):
+                            pw_fields.add(t.attr)
+        for name in ("__repr__", "__str__", "__format__"):
+            if name in m and any(isinstance(n, ast.Attribute) and n.attr in pw_fields and isinstance(n.value, ast.Name) and n.value.id == "self" for n in ast.walk(m[name])):
+                out[cls.name] = fields
+    return out
+
+
+def task_result_vars(fn):
+    """locals bound to `<task>.result()`"""
+    return {
+        n.targets[0].id
+        for n in ast.walk(fn)
+        if isinstance(n, ast.Assign) and len(n.targets) == 1 and isinstance(n.targets[0], ast.Name)
+        and isinstance(n.value, ast.Call) and isinstance(n.value.func, ast.Attribute) and n.value.func.attr == "result" and not n.value.args
+    }
+
+
+def readline_vars(fn):
+    """locals bound to an expression that awaits `<stream>.readline()`"""
+    out = set()
+    for n in ast.walk(fn):
+        if isinstance(n, ast.Assign) and any(isinstance(m, ast.Attribute) and m.attr == "readline" for m in ast.walk(n.value)):
+            out |= {m.id for t in n.targets for m in ast.walk(t) if isinstance(m, ast.Name)}
+    return out
+
+
+def nth_param(fn, i):
+    a = [x.arg for x in fn.args.posonlyargs + fn.args.args]
+    return [a[i]] if len(a) > i else []
+
+
+def taint_closure(fn, seeds):
+    """the locals of fn that can hold (a piece of) a value held by one of `seeds`: closed under bindings whose
+    right-hand side carries a tainted name through operators, f-strings, containers, attribute / subscript / method
+    calls ON a tainted receiver and str/repr/bytes/ascii/format of it.  The result of any other call is opaque (a
+    reply code returned by self.command(cmd) is not the command).  Names are found by binding, not by spelling."""
+    tainted = set(seeds)
+
+    def carries(e):
+        if isinstance(e, ast.Name):
+            return e.id in tainted
+        if isinstance(e, (ast.Attribute, ast.Subscript, ast.Starred, ast.Await, ast.FormattedValue)):
+            return carries(e.value)
+        if isinstance(e, ast.Call):
+            if isinstance(e.func, ast.Attribute) and carries(e.func.value):
+                return True
+            if isinstance(e.func, ast.Name) and e.func.id in ("str", "repr", "ascii", "bytes", "format", "bytearray"):
+                return any(carries(a) for a in e.args)
+            if isinstance(e.func, ast.Attribute) and e.func.attr in ("join", "format"):
+                return any(carries(a) for a in e.args) or any(carries(k.value) for k in e.keywords)
+            return False
+        if isinstance(e, (ast.Lambda, ast.ListComp, ast.SetComp, ast.DictComp, ast.GeneratorExp)):
+            return any(isinstance(m, ast.Name) and m.id in tainted for m in ast.walk(e))
+        return any(carries(c) for c in ast.iter_child_nodes(e) if isinstance(c, ast.expr))
+
+    changed = True
+    while changed:
+        changed = False
+        for n in ast.walk(fn):
+            pairs = []
+            if isinstance(n, ast.Assign):
+                pairs = [(t, n.value) for t in n.targets]
+            elif isinstance(n, (ast.AugAssign, ast.AnnAssign, ast.NamedExpr)) and n.value is not None:
+                pairs = [(n.target, n.value)]
+            elif isinstance(n, (ast.For, ast.AsyncFor)):
+                pairs = [(n.target, n.iter)]
+            for t, v in pairs:
+                if carries(v):
+                    for m in ast.walk(t):
+                        if isinstance(m, ast.Name) and isinstance(m.ctx, ast.Store) and m.id not in tainted:
+                            tainted.add(m.id)
+                            changed = True
+    return tainted
+
+
 def secret_raises(mod, specs):
-    """raise statements whose expression mentions a password-bearing local, in the listed functions"""
+    """raise statements whose expression mentions a password-bearing local, in the listed functions.  A spec is
+    (function path, seeds): seeds a list of names or a function node -> names; the password-bearing locals are the
+    taint closure of the seeds (identified by what they are bound to)"""
     out = []
-    for path, tainted in specs:
+    for path, seeds in specs:
         node = mod.tree
         ok = True
         for part in path.split("."):
@@ -787,6 +1030,7 @@ def secret_raises(mod, specs):
             node = nxt
         if not ok:
             raise Unclassified(f"{mod.file}: function {path} not found")
+        tainted = taint_closure(node, seeds(node) if callable(seeds) else seeds)
         for n in ast.walk(node):
             if isinstance(n, ast.Raise) and n.exc is not None:
                 if set(names_in(n.exc)) & set(tainted):
@@ -953,14 +1197,18 @@ def client_login_program(mod):
             return [x.value for x in e.elts]
         raise Unclassified(f"login: expected codes {src(e)[:60]} are not literals")
 
+    reply_vars = []  # [<code>, <info>]: the locals every self.command(...) result is unpacked into (named by binding)
+
     def command_call(st):
         """`code, info = await self.command(A, CODES [, censor_after=X])` -> (A, codes, X or None)"""
         if not (
             isinstance(st, ast.Assign) and len(st.targets) == 1 and isinstance(st.targets[0], ast.Tuple)
-            and [src(t) for t in st.targets[0].elts] == ["code", "info"]
+            and len(st.targets[0].elts) == 2 and all(isinstance(t, ast.Name) for t in st.targets[0].elts)
+            and (not reply_vars or [t.id for t in st.targets[0].elts] == reply_vars[0])
             and isinstance(st.value, ast.Await) and isinstance(st.value.value, ast.Call) and src(st.value.value.func) == "self.command"
         ):
-            raise Unclassified(f"login: expected `code, info = await self.command(...)`, found {src(st)[:60]}")
+            raise Unclassified(f"login: expected `<code>, <info> = await self.command(...)`, found {src(st)[:60]}")
+        reply_vars.append([t.id for t in st.targets[0].elts])
         c = st.value.value
         kw = {k.arg: k.value for k in c.keywords}
         if None in kw or set(kw) - {"censor_after", "expected_codes"} or not (1 <= len(c.args) <= 2):
@@ -976,6 +1224,7 @@ def client_login_program(mod):
     if cen0 is not None:
         raise Unclassified("login: the first command passes censor_after")
     first_prefix, first_arg = lit_plus_param(a0)
+    code_var = reply_vars[0][0]
     loops = [i for i, st in enumerate(body) if isinstance(st, ast.While)]
     if len(loops) != 1:
         raise Unclassified("login: expected exactly one while loop")
@@ -983,7 +1232,7 @@ def client_login_program(mod):
     loop = body[wi]
     t = loop.test
     if not (
-        isinstance(t, ast.Call) and src(t.func) == "code.matches" and len(t.args) == 1 and not t.keywords
+        isinstance(t, ast.Call) and src(t.func) == f"{code_var}.matches" and len(t.args) == 1 and not t.keywords
         and isinstance(t.args[0], ast.Constant) and isinstance(t.args[0].value, str) and not loop.orelse
     ):
         raise Unclassified(f"login: loop condition {src(t)[:60]} (expected code.matches('MASK'))")
@@ -1033,7 +1282,7 @@ def client_login_program(mod):
     while True:
         c = node.test
         if not (
-            isinstance(c, ast.Compare) and len(c.ops) == 1 and isinstance(c.ops[0], ast.Eq) and src(c.left) == "code"
+            isinstance(c, ast.Compare) and len(c.ops) == 1 and isinstance(c.ops[0], ast.Eq) and src(c.left) == code_var
             and isinstance(c.comparators[0], ast.Constant) and isinstance(c.comparators[0].value, str)
         ):
             raise Unclassified(f"login: branch condition {src(c)[:60]} (expected code == 'NNN')")
@@ -1097,7 +1346,10 @@ def client_password_uses(mod):
                 f = mod.parent[f]
             p = mod.parent[n]
             if isinstance(p, ast.Call) and n in p.args:
-                shape = "arg:" + src(p.func)
+                if isinstance(p.func, ast.Attribute) and isinstance(p.func.value, ast.Name) and p.func.value.id not in ("self", "cls"):
+                    shape = "arg:@obj." + p.func.attr  # a method of a local object (whatever the local is called)
+                else:
+                    shape = "arg:" + src(p.func)
             elif isinstance(p, ast.BinOp) and isinstance(p.left, ast.Constant):
                 shape = "concat:" + repr(p.left.value)
             else:
@@ -1131,13 +1383,13 @@ def generate(src_dir):
     raises = secret_raises(
         sv,
         [
-            ("Server.parse_command", ["line", "s", "cmd", "rest", "stars"]),
-            (f"Server.{pf['handler']}", ["rest"]),
-            ("ConnectionConditions.__call__", ["rest"]),
-            ("MemoryUserManager.authenticate", ["password"]),
-            ("Server.dispatcher", [pf["rest_var"], "result"]),
+            ("Server.parse_command", readline_vars),  # the line read from the peer and everything cut from it
+            (f"Server.{pf['handler']}", lambda fn: nth_param(fn, 2)),  # handler(self, connection, <rest>)
+            ("ConnectionConditions.__call__", lambda fn: [p for w in fn.body if isinstance(w, (ast.FunctionDef, ast.AsyncFunctionDef)) for p in nth_param(w, 2)]),
+            ("MemoryUserManager.authenticate", lambda fn: nth_param(fn, 2)),  # authenticate(self, user, <password>)
+            ("Server.dispatcher", task_result_vars),  # the (verb, rest) pair parse_command returned
         ],
-    ) + secret_raises(cl, [("BaseClient.command", ["command", "message", "raw"]), (f"{lf['class']}.login", ["password", "cmd"])])
+    ) + secret_raises(cl, [("BaseClient.command", lambda fn: nth_param(fn, 1)), (f"{lf['class']}.login", ["password"])])
     pw_uses = client_password_uses(cl)
     try:
         lp, lp_why = client_login_program(cl), ""
@@ -1150,11 +1402,9 @@ def generate(src_dir):
     rows = []
     for s in sites:
         rows.append(
-            "  (* %s:%d  %s *)\n  {| ls_file := %s; ls_func := %s; ls_level := %s; ls_fmt := %s;\n     ls_srcs := [%s] |}"
+            # no source text and no line number in the output: a fact must not change when locals are renamed or lines move
+            "  {| ls_file := %s; ls_func := %s; ls_level := %s; ls_fmt := %s;\n     ls_srcs := [%s] |}"
             % (
-                s["file"],
-                s["line"],
-                s["text"].replace("*)", "* )").replace("(*", "( *")[:100],
                 S(s["file"]),
                 S(s["func"]),
                 S(s["level"]),
@@ -1171,6 +1421,9 @@ def generate(src_dir):
     out += f"Definition parse_command_returns_lowered_verb : bool := {emit.boolean(pf['returns_lower'])}.\n\n"
     out += "(* the handler bound to verb ""pass"" in commands_mapping *)\n"
     out += f"Definition pass_handler : string := {S(pf['handler'])}.\n"
+    out += "(* every key of commands_mapping bound to that handler; the mapping is a literal dict of ""verb"": self.<method>, assigned once *)\n"
+    out += "Definition pass_handler_verbs : list (list Z) := " + emit.lst(emit.text(c) for c in pf["pass_verbs"]) + ".\n"
+    out += f"Definition commands_mapping_literal : bool := {emit.boolean(pf['mapping_literal'])}.\n"
     pr = lambda l: emit.lst(f"({emit.text(a)}, {emit.text(b)})" for a, b in l)
     out += f"Definition pass_replies : list (list Z * list Z) := {pr(pf['replies'])}.\n"
     out += f"Definition pass_replies_literal : bool := {emit.boolean(pf['literal'])}.\n"
@@ -1178,8 +1431,10 @@ def generate(src_dir):
     out += f"Definition pass_rest_sinks : list string := {slist(pf['sinks'])}.\n"
     out += f"Definition pass_decorator_rest_sinks : list string := {slist(pf['deco_sinks'])}.\n"
     out += f"Definition dispatcher_rest_sinks : list string := {slist(pf['disp_rest_sinks'])}.\n"
-    out += f"Definition dispatcher_verb_var : string := {S(pf['verb_var'])}.\n"
-    out += f"Definition dispatcher_rest_var : string := {S(pf['rest_var'])}.\n"
+    out += "(* the handler of a line is `self.commands_mapping.get(<the verb parse_command returned>)`, the only read of the mapping *)\n"
+    if not pf["lookup_ok"]:
+        out += "(* NOT SO: " + pf["lookup_why"].replace("*)", "* )").replace("(*", "( *") + " *)\n"
+    out += f"Definition dispatcher_lookup_by_parsed_verb : bool := {emit.boolean(pf['lookup_ok'])}.\n"
     out += f"Definition unknown_verb_reply_names : list string := {slist(pf['unknown_names'])}.\n\n"
     out += "(* Client.login: cmd = <prefix> + password ; censor_after = <int> ; self.command(cmd, ..., censor_after=censor_after) *)\n"
     out += f"Definition login_pass_prefix : list Z := {emit.text(lf['prefix'])}.\n"
@@ -1191,6 +1446,14 @@ def generate(src_dir):
     out += f"Definition login_program_translated : bool := {emit.boolean(lp is not None)}.\n"
     out += f"Definition login_program : login_prog := {coq_login_program(lp or login_program_fallback())}.\n"
     out += "Definition client_password_uses : list (string * string) := " + emit.lst(f"({S(a)}, {S(b)})" for a, b in pw_uses) + ".\n\n"
+    out += "(* classes whose __repr__/__str__ prints the password they hold, and logging arguments that are such an object *)\n"
+    out += f"Definition secret_repr_classes : list string := {slist(sorted(c for m in mods.values() for c in m.secret_classes))}.\n"
+    sec = []
+    for m in mods.values():
+        for x in m.secret_args:
+            if x not in sec:
+                sec.append(x)
+    out += "Definition secret_object_log_args : list (string * string) := " + emit.lst(f"({S(a)}, {S(b)})" for a, b in sec) + ".\n\n"
     out += "(* raise statements built from a password-bearing local, in the functions that hold one *)\n"
     out += "Definition secret_raise_sites : list (string * string) := " + emit.lst(f"({S(a)}, {S(b)})" for a, b in raises) + ".\n"
     return out
